@@ -240,6 +240,16 @@ class _FuncInline(SiteRewriter):
             return type(e)(args, e.loc)
         return super()._visit_naryop(e, ctx)
 
+    def _visit_compare(self, e: Compare, ctx: _Ctx):
+        # `a < b < c` stops at the first link that fails: only the first two
+        # operands are always evaluated
+        tail = ctx.conditional('a chained comparison skips its later operands')
+        args = [
+            self._visit_expr(arg, ctx if i < 2 else tail)
+            for i, arg in enumerate(e.args)
+        ]
+        return Compare(e.ops, args, e.loc)
+
     def _visit_list_comp(self, e: ListComp, ctx: _Ctx):
         # the element and every later iterable see the comprehension targets
         # and run once per item; only the first iterable is evaluated up front
